@@ -407,9 +407,15 @@ def compile_operand(s):
 def compile_rvalue(s):
     s = s.strip()
     if s.startswith("&raw const "):
-        return ("ref", parse_place(s[len("&raw const "):]))
+        rest = s[len("&raw const "):]
+        if rest.startswith("(fake) "):
+            rest = rest[len("(fake) "):]      # fake borrow emitted for bounds checks: same place
+        return ("ref", parse_place(rest))
     if s.startswith("&raw mut "):
-        return ("ref", parse_place(s[len("&raw mut "):]))
+        rest = s[len("&raw mut "):]
+        if rest.startswith("(fake) "):
+            rest = rest[len("(fake) "):]
+        return ("ref", parse_place(rest))
     if s.startswith("&mut "):
         return ("ref", parse_place(s[5:]))
     if s.startswith("&fake "):
